@@ -1,0 +1,15 @@
+//go:build verif
+
+package pkcs12
+
+import (
+	"crypto/cipher"
+
+	"golang.org/x/crypto/pkcs12/internal/rc2"
+)
+
+// VerifC12NewRC2 exposes pkcs12/internal/rc2.New (key, effective key length in bits)
+// to the verification harness in /verif (property C12).
+func VerifC12NewRC2(key []byte, t1 int) (cipher.Block, error) {
+	return rc2.New(key, t1)
+}
